@@ -1116,11 +1116,21 @@ func RunSession(spec *SessSpec) *Trace {
 		case "mapchange": // a new cluster map assigns replica index N of vBucket VB to a node (it was unassigned); Sel "epoch": higher revEpoch, lower rev
 			vbm, ix := uint16(st.VB), st.N
 			env.Sim.SetObserve(vbm, ix, env.Sim.FailoverCopy(vbm)[0].UUID, uint64(st.St))
-			node := (ix) % spec.Nodes
+			// a node that holds no other copy of this vBucket (one copy per node, as in a real cluster map)
+			used := map[int]bool{}
 			for _, n := range env.Sim.ReplicaNodes(vbm) {
-				if n == node {
-					node = (node + 1) % spec.Nodes
+				used[n] = true
+			}
+			node := -1
+			for k := 0; k < spec.Nodes; k++ {
+				if c := (ix + k) % spec.Nodes; !used[c] {
+					node = c
+					break
 				}
+			}
+			if node < 0 {
+				env.Log.Add(evlog.Rec{K: "ctl.mapchange.skipped", VB: st.VB})
+				break
 			}
 			sel := st.Sel
 			env.Sim.SetReplicaNode(vbm, ix, node)
@@ -1149,7 +1159,16 @@ func RunSession(spec *SessSpec) *Trace {
 				}
 				return len(got) > 0
 			})
-			time.Sleep(500 * time.Millisecond)
+			// ... and it is acting on it once it polls the newly listed copy (bounded wait: a client that never does is what the
+			// gate oracle is there to report)
+			t0 := evlog.Tick()
+			vbw := st.VB
+			hx.WaitFor(10*time.Second, func() bool {
+				return len(env.Log.Filter(func(r evlog.Rec) bool {
+					return r.K == "sim.tx" && r.Op == cbsim.OpObserveSeqno && r.VB == vbw && int(r.B) == ix && r.T > t0
+				})) > 0
+			})
+			time.Sleep(150 * time.Millisecond)
 			env.Log.Add(evlog.Rec{K: "ctl.mapchange.known", VB: st.VB, C: uint64(ix)})
 		case "observefail": // the replica answers TMPFAIL (Sel "tmpfail"), BUSY ("busy") or normally ("ok") from now on
 			s.pmu.Lock()
